@@ -1056,3 +1056,17 @@ Proof.
   - intros o ->. reflexivity.
   - intros bs o H. destruct bs; [inversion H; auto | discriminate].
 Defined.
+
+(* ---- consequences of the round trip: encodings are unambiguous ------------------------------------------- *)
+Lemma fmt_unambiguous {A} (F : fmt A) a b t1 t2 :
+  ok F a -> ok F b -> enc F a ++ t1 = enc F b ++ t2 -> a = b /\ t1 = t2.
+Proof.
+  intros Ha Hb H. pose proof (rt_enc F a t1 Ha) as Da. pose proof (rt_enc F b t2 Hb) as Db.
+  rewrite H in Da. rewrite Da in Db. injection Db as -> ->. split; reflexivity.
+Qed.
+
+Lemma fend_injective {A} (F : fend A) a b : eok F a -> eok F b -> eenc F a = eenc F b -> a = b.
+Proof.
+  intros Ha Hb H. pose proof (ert_enc F a Ha) as Da. pose proof (ert_enc F b Hb) as Db.
+  rewrite H in Da. rewrite Da in Db. injection Db as ->. reflexivity.
+Qed.
